@@ -323,6 +323,9 @@ func maxInt(a, b int) int {
 func (v *varier) text(ds []rt.Def, malIdx int) string {
 	r := v.r
 	var b strings.Builder
+	// a definition that repeats an earlier one verbatim is mostly written with the very same line (same
+	// separators), as a configuration source would: "add X / del X / add X" with byte-identical adds
+	seen := map[string]string{}
 	for i := range ds {
 		if v.level >= 2 {
 			switch r.Intn(10) {
@@ -335,7 +338,15 @@ func (v *varier) text(ds []rt.Def, malIdx int) string {
 			}
 			b.WriteString(r.Pick(uniPad))
 		}
-		b.WriteString(v.line(&ds[i], i == malIdx))
+		key := fmt.Sprintf("%+v", ds[i])
+		ln, dup := seen[key]
+		if !dup || i == malIdx || r.Chance(1, 4) {
+			ln = v.line(&ds[i], i == malIdx)
+			if i != malIdx {
+				seen[key] = ln
+			}
+		}
+		b.WriteString(ln)
 		if v.level >= 2 {
 			b.WriteString(r.Pick(uniPad))
 			if i < len(ds)-1 || r.Chance(1, 2) {
@@ -374,4 +385,66 @@ func errString(err error) string {
 		return ""
 	}
 	return fmt.Sprint(err)
+}
+
+// genScript draws a command script like rt.Universe.GenScript and, in addition, makes sequences frequent in
+// which a command is applied, undone or altered, and applied again with the very same definition: verbatim
+// re-adds, `del` aimed exactly at an earlier add followed by the same add, `weight` on an earlier add followed
+// by the same add. (Commands are applied in order and order matters: the second add is not a no-op then.)
+func genScript(r *hx.Rand, u *rt.Universe, n int) []rt.Def {
+	var ds []rt.Def
+	for len(ds) < n {
+		var adds []rt.Def
+		for _, d := range ds {
+			if d.Cmd == "add" {
+				adds = append(adds, d)
+			}
+		}
+		k := r.Intn(12)
+		if len(adds) == 0 {
+			k = 11
+		}
+		switch k {
+		case 0, 1: // the same add again, verbatim
+			ds = append(ds, adds[r.Intn(len(adds))])
+		case 2, 3: // delete exactly what an earlier add created, then mostly the same add again
+			a := adds[r.Intn(len(adds))]
+			d := rt.Def{Cmd: "del", Service: a.Service}
+			switch r.Intn(5) {
+			case 0:
+			case 1:
+				d.Src = a.Src
+			case 2:
+				d.Src = scramble(r, a.Src)
+			case 3:
+				d.Src, d.Dst = a.Src, a.Dst
+			default:
+				if len(a.Tags) > 0 {
+					d.Tags = []string{a.Tags[r.Intn(len(a.Tags))]}
+					if r.Chance(1, 2) {
+						d.Service = ""
+					}
+				}
+			}
+			d.Fill()
+			ds = append(ds, d)
+			if r.Chance(1, 4) {
+				ds = append(ds, u.GenDef(r, ds))
+			}
+			if r.Chance(4, 5) {
+				ds = append(ds, a)
+			}
+		case 4: // change the weight of what an earlier add created, then the same add again
+			a := adds[r.Intn(len(adds))]
+			w := rt.Def{Cmd: "weight", Service: a.Service, Src: a.Src, WText: r.Pick(u.Weights[2:])}
+			w.Fill()
+			ds = append(ds, w)
+			if r.Chance(4, 5) {
+				ds = append(ds, a)
+			}
+		default:
+			ds = append(ds, u.GenDef(r, ds))
+		}
+	}
+	return ds
 }
